@@ -50,6 +50,7 @@ func (s *sessionManager) join(message *Message, activeChan chan<- *ActiveMessage
 	defer close(ch)
 	s.operationFuncChan <- func(record map[string]*session) {
 		if v, ok := record[key]; ok {
+			verifAt(nil, "M.join.refused", key)
 			ch <- errors.Join(fmt.Errorf("key[%s] join time[%s]",
 				key, v.joinTime.Format(time.RFC3339)), _errKeyExist)
 			return
@@ -59,6 +60,7 @@ func (s *sessionManager) join(message *Message, activeChan chan<- *ActiveMessage
 			joinTime:      time.Now(),
 			activeMsgChan: activeChan,
 		}
+		verifAt(nil, "M.join.ok", key, len(record))
 		ch <- nil
 	}
 	return key, <-ch
@@ -71,6 +73,7 @@ func (s *sessionManager) leave(key string) {
 		if _, ok := record[key]; ok {
 			delete(record, key)
 		}
+		verifAt(nil, "M.leave", key, len(record))
 	}
 	<-ch
 	return
@@ -84,9 +87,12 @@ func (s *sessionManager) write(activeMsg *ActiveMessage) *Message {
 		if v, ok := record[key]; ok {
 			activeMsg.header = v.header
 			activeMsg.replyChan = replyChan
+			verifAt(nil, "M.route.before", key)
 			v.activeMsgChan <- activeMsg
+			verifAt(nil, "M.route.after", key)
 			return
 		}
+		verifAt(nil, "M.route.notexist", key)
 		replyChan <- newErrMessage(errors.Join(ErrNotExistKey,
 			fmt.Errorf("key=[%s] sum=[%d] ", key, len(record))))
 	}
